@@ -10,7 +10,7 @@ theorem step_vars (st : St) (op : Op) (r : Res) (hs : step st op = some r) (k : 
     (hk : st.conf? k = some c) (hd : c.defaults = []) (hed : op.editsVars k = false) :
     ∃ c', r.st.conf? k = some c' ∧ c'.variables = c.variables ∧ c'.defaults = [] := by
   obtain ⟨c', h1, h2⟩ :=
-    step_keeps insens_vars (addConfig_keeps_vars k) st op r trivial hs hed (Or.inl insensFlags_vars) c hk hd
+    step_keeps insens_vars (addConfig_keeps_vars k) st op r trivial hs hed (Or.inl insensFlags_vars) (Or.inl (fun _ _ => rfl)) c hk hd
   have h3 : c'.variables = c.variables := congrArg Prod.fst h2
   have h4 : c'.defaults = c.defaults := congrArg Prod.snd h2
   exact ⟨c', h1, h3, by rw [h4, hd]⟩
@@ -117,10 +117,10 @@ theorem resolveDefaults_prefix (toc : Option Toc) : ∀ (ds : List Nat) (c : Con
         obtain ⟨e2, h2⟩ := ih { c' with defaults := c'.defaults.erase n }
         exact ⟨e1 ++ e2, by rw [h2]; simp [h1]⟩
 
-theorem insens_cfg : Insens cfgOf := ⟨fun _ _ => rfl, fun _ _ => rfl, fun _ _ => rfl, fun _ _ => rfl, fun _ _ _ _ => rfl⟩
+theorem insens_cfg : Insens cfgOf := ⟨fun _ _ => rfl, fun _ _ => rfl, fun _ _ => rfl, fun _ _ _ _ => rfl⟩
 theorem insensFlags_cfg : InsensFlags cfgOf := ⟨fun _ _ => rfl, fun _ _ => rfl⟩
 theorem insens_take (m : Nat) : Insens (fun c : Conf => c.variables.take m) :=
-  ⟨fun _ _ => rfl, fun _ _ => rfl, fun _ _ => rfl, fun _ _ => rfl, fun _ _ _ _ => rfl⟩
+  ⟨fun _ _ => rfl, fun _ _ => rfl, fun _ _ => rfl, fun _ _ _ _ => rfl⟩
 theorem insensFlags_take (m : Nat) : InsensFlags (fun c : Conf => c.variables.take m) := ⟨fun _ _ => rfl, fun _ _ => rfl⟩
 
 theorem addConfig_keeps_cfg (k : Nat) : AddKeeps TocNE (fun _ => True) cfgOf k :=
@@ -145,7 +145,7 @@ def TocsOk (q : Option Toc → Prop) : St → List Op → Prop
 
 /-- generic history lemma: a projection kept by every step is kept by every history -/
 theorem run_keeps {α : Type} {q : Option Toc → Prop} {p : α → Prop} {f : Conf → α} {k : Nat}
-    (hI : Insens f) (hF : InsensFlags f) (hadd : AddKeeps q p f k) :
+    (hI : Insens f) (hF : InsensFlags f) (hC : CbInsens f) (hadd : AddKeeps q p f k) :
     ∀ (ops : List Op) (st : St) (c : Conf), st.conf? k = some c → p (f c) → TocsOk q st ops →
       (∀ op ∈ ops, op.editsVars k = false) → ∃ c', (run st ops).1.conf? k = some c' ∧ f c' = f c := by
   intro ops
@@ -161,7 +161,7 @@ theorem run_keeps {α : Type} {q : Option Toc → Prop} {p : α → Prop} {f : C
       exact ih st c hk hp hq.2 (fun o ho => hed o (by simp [ho]))
     | some r =>
       rw [hs] at hq
-      obtain ⟨c1, h1, h2⟩ := step_keeps hI hadd st op r hq.1 hs (hed op (by simp)) (Or.inl hF) c hk hp
+      obtain ⟨c1, h1, h2⟩ := step_keeps hI hadd st op r hq.1 hs (hed op (by simp)) (Or.inl hF) (Or.inl hC) c hk hp
       obtain ⟨c2, h3, h4⟩ := ih r.st c1 h1 (by rw [h2]; exact hp) hq.2 (fun o ho => hed o (by simp [ho]))
       exact ⟨c2, h3, by rw [h4, h2]⟩
 
@@ -534,9 +534,9 @@ theorem run_cfg (st : St) (k : Nat) (c : Conf) (ops : List Op) (hk : st.conf? k 
     (h0 : TocNE st.toc) (hset : ∀ t, Op.setToc t ∈ ops → TocNE (some t))
     (hno : ∀ op ∈ ops, op.editsVars k = false) :
     ∃ c', (run st ops).1.conf? k = some c' ∧ cfgOf c' = cfgOf c ∧ c.variables <+: c'.variables := by
-  obtain ⟨c1, h1, e1⟩ := run_keeps insens_cfg insensFlags_cfg (addConfig_keeps_cfg k) ops st c hk trivial
+  obtain ⟨c1, h1, e1⟩ := run_keeps insens_cfg insensFlags_cfg (fun _ _ => rfl) (addConfig_keeps_cfg k) ops st c hk trivial
     (tocsOk_of_ops ops st h0 hset) hno
-  obtain ⟨c2, h2, e2⟩ := run_keeps (insens_take c.variables.length) (insensFlags_take c.variables.length)
+  obtain ⟨c2, h2, e2⟩ := run_keeps (insens_take c.variables.length) (insensFlags_take c.variables.length) (fun _ _ => rfl)
     (addConfig_keeps_take k c.variables.length) ops st c hk (by simp) (tocsOk_true ops st) hno
   rw [h1] at h2; cases h2
   refine ⟨c1, h1, e1, ?_⟩
